@@ -20,6 +20,25 @@ pub fn check_case(c: &NetCase, obs: &mut Obs) -> Result<(), String> {
         let spec = combine(&hits, &tags, &req, &r.url, &res);
         let got = engine.check_network_request(&req);
         let names: Vec<&str> = hits.iter().filter(|p| p.f.is_removeparam()).filter_map(|p| p.f.modifier_option.as_deref()).collect();
+        // request types a removeparam rule applies to, read from its text (wherever the type
+        // options stand): the positive type options, or document / subdocument / xhr when there
+        // is none. A rule must not take part in the rewrite of a request of any other type.
+        let scheme = r.url.split(':').next().unwrap_or("").to_ascii_lowercase();
+        for p in hits.iter().filter(|p| p.f.is_removeparam()) {
+            let opts = p.line.trim().rsplit_once('$').map(|x| x.1).unwrap_or("");
+            if opts.split(',').any(|o| o.starts_with('~') && crate::model::opts::type_option_class(&o[1..]).is_some()) {
+                continue; // negated types: covered by C03's option model
+            }
+            let mut allowed: Vec<&str> = opts.split(',').filter_map(crate::model::opts::type_option_class).collect();
+            if allowed.is_empty() {
+                allowed = vec!["document", "subdocument", "xmlhttprequest"];
+            }
+            if let Some(t) = crate::model::opts::request_type_class(&r.rtype, &scheme) {
+                if !allowed.contains(&t) {
+                    return Err(format!("request {:?} (type class {:?}): removeparam rule {:?} is applied although its text restricts it to {:?}", r, t, p.line, allowed));
+                }
+            }
+        }
         if let Some(w) = &spec.rewritten {
             obs.label("rewrite-expected");
             // something preserved?
@@ -119,7 +138,7 @@ pub fn decode(t: &mut Tape) -> NetCase {
 }
 
 pub fn check(ctx: &mut Ctx) {
-    ctx.rule = "1-5 removeparam rules (8 parameter names incl. case variants, 8 patterns, extra options such as types/domain/party/important) + blocking/important/exception companions and malformed removeparam spellings; 1-5 raw URLs (1 in 8 spelled in a way URL normalisation would change: upper-case scheme or host, IDN host, default port, userinfo, trailing dot, percent escapes) whose query mixes empty keys/values, bare keys, '=' inside values, '&&', leading/trailing '&', percent escapes, non-ASCII, 1 in 20 with one opaque value of 0.7-5 KiB, and whose fragment may contain '?', '#' and parameters. Oracle: query surgery on the raw input string (query = first '?' before the first '#'; remove pairs k=v with non-empty v and k equal to a matching rule's name; '?' dropped only when nothing remains; None when nothing removed or an important rule blocks); which rules match comes from NetworkFilter::matches. Non-trivial = rewrite that keeps some parameters, or matching rule that must not rewrite (near-miss key / empty value).".into();
+    ctx.rule = "1-5 removeparam rules (8 parameter names incl. case variants, 8 patterns, extra options such as types/domain/party/important) + blocking/important/exception companions and malformed removeparam spellings; 1-5 raw URLs (1 in 8 spelled in a way URL normalisation would change: upper-case scheme or host, IDN host, default port, userinfo, trailing dot, percent escapes) whose query mixes empty keys/values, bare keys, '=' inside values, '&&', leading/trailing '&', percent escapes, non-ASCII, 1 in 20 with one opaque value of 0.7-5 KiB, and whose fragment may contain '?', '#' and parameters. Oracle: query surgery on the raw input string (query = first '?' before the first '#'; remove pairs k=v with non-empty v and k equal to a matching rule's name; '?' dropped only when nothing remains; None when nothing removed or an important rule blocks); which rules match comes from NetworkFilter::matches, except that the request types a removeparam rule may apply to are re-read from its text (positive type options wherever they stand; document/subdocument/xhr by default). Non-trivial = rewrite that keeps some parameters, or matching rule that must not rewrite (near-miss key / empty value).".into();
     ctx.assumptions = vec!["the rewritten URL is compared byte for byte with the model's".into()];
     let n = ctx.tier.pick(1_500_000, 10_000_000);
     drive(ctx, "removeparam", n, 300, &decode, &check_case);
